@@ -20,16 +20,36 @@ def run(c):
     c.rule = ("scripts: 1..3 stream channels (guest holds the writable or the readable end, the host is the peer; payload kinds "
               "canonical u8 / lowered without lists / lowered with an owned list; scripted answer to a cancel race), a task body over "
               "{open, write n, write_buf, into_vec, write_all n, write_one, read n, next, collect, poll, await, cancel, drop op, drop end, "
-              "suspend, yield} and peer directives {transfer up to m, drop, deliver}; task cancel when directives run out; modes cabi1/"
+              "suspend, yield, move to the other task (cabi2)} and peer directives {transfer up to m, drop, deliver}; task cancel when directives run out; modes cabi1/"
               "cabi2 (exact trace equality with the model) and export (real executor, spec side only); builds default and futures-stream "
               "(reader wrapped in the futures::Stream adapter); non-trivial = an operation blocked; distinct by normalised trace")
     chan_common.run_chan(c, "C19", "S", True, WHAT)
+    c.cov["partial_obligations"] = [
+        "FIFO refinement for streams over all schedules (values reach the reader exactly once, in order: writer buffer from the cursor "
+        "+ host channel contents + reader buffer = the written sequence; acceptance of the ChanSpec monitor by every model trace): NOT a "
+        "theorem for stream channels (it is for the two future channel kinds, C20). Proved instead: operation level for all inputs "
+        "(advance loop = closed form, counts, ledgers, decode) and, for the GUEST-WRITER stream channel, safety of every legal step of the "
+        "transition system under NoUseAfterDropped (no panic, no host trap, host reads at the guest's cursor: stream_never_traps_partial, "
+        "host_reads_at_the_cursor). Enforced otherwise by: exact trace equality model vs real runtime + ChanSpec fifo-*/count-*/return-*/"
+        "value-*/lists-*/slab-* clauses + Host.End legality on the REAL traces of every script of the run",
+        "guest-READER stream channel (read / next / collect / futures::Stream adapter) as a transition system: invariant stated "
+        "(Proofs/StreamRead.lean: shapes, closed/idle cases proved), the step-safety induction is not finished; operation level proved "
+        "(counts_are_hosts_read, dropped_sets_done_partial); validated as above",
+        "write_all_terminates_when_host_progresses: induction over hosts that answer every write at once (COMPLETED|k, any legal k per "
+        "write); schedules mixing BLOCKED + later delivery are covered step-wise by stream_never_traps_partial (no termination measure "
+        "proved over them) and by the scripts",
+        "full strength `no host trap for every script` is false (stream_never_traps_full_false): known finding stream-op-after-dropped-zero",
+    ]
     c.assumptions += [
         "host rules are the Appendix-B transcription in Async/Host.lean (`Host.End`); `cancel traps while the end is in a set` is (R)",
         "the peer of every guest end is the host (same-component transfers are not exercised); cancel is the synchronous form",
         "std's Vec growth policy (RawVec amortised doubling, minimum 8 for 1-byte elements else 4) is modelled in `growCap` (collect)",
         "`Vec::with_capacity(n)` yields capacity exactly n (the harness flags `!capacity` otherwise; `next()` relies on it)",
-        "one component task per script in the exact comparison; cross-task moves of an operation are C18 (the engine supports `t<n>`)",
+        "cabi2 (v2 task ABI) scripts move the body between two harness tasks (`t<n>`) while stream/future operations are registered; with "
+        "the v1 ABI (cabi1) a move leaves a stale registration behind — C18's known finding waitable-v1-cross-task, judged there, not "
+        "generated here; the transition-system theorems are about one task",
         "native x86-64; export-mode traces are checked against the spec side only (executor model: C22)",
-        "traces are compared up to the first host trap (the mock lets the guest continue, a real host does not)",
+        "traces are compared up to the first host trap (the mock lets the guest continue, a real host does not); the spec side judges "
+        "the trace BEFORE a trap / the start of a panic as a prefix (run-level clauses, host legality, waitable rules, anomalies; no "
+        "end-of-trace clauses) and classifies the trap / panic itself",
     ]
